@@ -27,6 +27,8 @@
 (*   CreateBeforeCommit    -> seeded change S02 (ID reuse / collision)     *)
 (*   Sweep = FALSE         -> orphans survive Open                         *)
 (*   RecreateTail = FALSE  -> missing tail file makes Open fail            *)
+(*   MaxFaults > 0, Recommit = FALSE -> F15 (failed file creation after    *)
+(*                            the metadata commit: disk ahead of memory)   *)
 (***************************************************************************)
 EXTENDS Integers, Sequences, FiniteSets, TLC, LogOps
 
@@ -34,7 +36,9 @@ CONSTANTS MaxIdx,        \* entries ever appended
           SealAt,        \* a tail holding this many entries is sealed by the append
           MaxCrashes,
           MaxOps,        \* API calls per behaviour
-          RotateOnOpen, CreateBeforeCommit, Sweep, RecreateTail
+          RotateOnOpen, CreateBeforeCommit, Sweep, RecreateTail,
+          MaxFaults,     \* I/O failures injected per behaviour (0: the crash-only model)
+          Recommit       \* fix F15: a failed postCommit re-commits the state that stays in use
 
 VARIABLES meta,      \* durable metadata: [next, segs]  segs = Seq of [id, base, min, max, sealed]
           vdir,      \* ids of the files visible in the directory now
@@ -46,9 +50,10 @@ VARIABLES meta,      \* durable metadata: [next, segs]  segs = Seq of [id, base,
           alog,      \* ghost: the contract log (LogOps state) as acknowledged
           unsure,    \* ghost: set of contract logs a restart may legitimately show
           nc, nops, crashes,
-          created    \* ghost: every <<id, base>> ever passed to Create (C13)
+          created,   \* ghost: every <<id, base>> ever passed to Create (C13)
+          faults     \* number of injected I/O failures so far (C10)
 
-vars == <<meta, vdir, ddir, fvol, fdur, mem, pc, alog, unsure, nc, nops, crashes, created>>
+vars == <<meta, vdir, ddir, fvol, fdur, mem, pc, alog, unsure, nc, nops, crashes, created, faults>>
 
 Seg(id, base, mn, mx, sealed) == [id |-> id, base |-> base, min |-> mn, max |-> mx, sealed |-> sealed]
 NoFile == [ents |-> <<>>, sealed |-> FALSE]
@@ -72,7 +77,7 @@ View == FirstOfView(mem.segs, fvol)
 
 Init == /\ meta = [next |-> 0, segs |-> <<>>] /\ vdir = {} /\ ddir = {} /\ fvol = <<>> /\ fdur = <<>>
         /\ mem = [up |-> FALSE, segs |-> <<>>, next |-> 0, rot |-> FALSE]
-        /\ pc = <<"down">> /\ alog = Empty /\ unsure = {Empty} /\ nc = 1 /\ nops = 0 /\ crashes = 0 /\ created = {}
+        /\ pc = <<"down">> /\ alog = Empty /\ unsure = {Empty} /\ nc = 1 /\ nops = 0 /\ crashes = 0 /\ created = {} /\ faults = 0
 
 Idle == pc = <<"idle">> /\ mem.up
 Room == nops < MaxOps
@@ -92,7 +97,7 @@ OpenLoad ==
   /\ pc = <<"down">>
   /\ mem' = [up |-> FALSE, segs |-> meta.segs, next |-> meta.next, rot |-> FALSE]
   /\ pc' = <<"open", "segments">>
-  /\ UNCHANGED <<meta, vdir, ddir, fvol, fdur, alog, unsure, nc, nops, crashes, created>>
+  /\ UNCHANGED <<meta, vdir, ddir, fvol, fdur, alog, unsure, nc, nops, crashes, faults, created>>
 
 OpenSegments ==     \* sealed segments must exist; tail recovered or re-created; no tail -> init
   /\ pc = <<"open", "segments">>
@@ -108,7 +113,7 @@ OpenSegments ==     \* sealed segments must exist; tail recovered or re-created;
           ELSE IF RecreateTail /\ CreateOK(t.id)
           THEN /\ DoCreate(t.id, t.base) /\ pc' = <<"open", "sweep">> /\ UNCHANGED <<meta, mem>>
           ELSE pc' = <<"failed">> /\ UNCHANGED <<meta, vdir, ddir, fvol, fdur, mem, created>>
-  /\ UNCHANGED <<alog, unsure, nc, nops, crashes>>
+  /\ UNCHANGED <<alog, unsure, nc, nops, crashes, faults>>
 
 NewTailSegs(segs, next, base) == Append(segs, Seg(next, base, base, 0, FALSE))
 
@@ -119,14 +124,14 @@ OpenInitCommit ==
      IN /\ meta' = [next |-> mem.next + 1, segs |-> ns]
         /\ mem' = [mem EXCEPT !.segs = ns, !.next = mem.next + 1]
   /\ pc' = <<"open", "initcreate">>
-  /\ UNCHANGED <<vdir, ddir, fvol, fdur, alog, unsure, nc, nops, crashes, created>>
+  /\ UNCHANGED <<vdir, ddir, fvol, fdur, alog, unsure, nc, nops, crashes, faults, created>>
 
 OpenInitCreate ==
   /\ pc = <<"open", "initcreate">>
   /\ LET t == TailOf(mem.segs) IN
      IF CreateOK(t.id) THEN DoCreate(t.id, t.base) /\ pc' = <<"open", "sweep">>
      ELSE pc' = <<"failed">> /\ UNCHANGED <<vdir, ddir, fvol, fdur, created>>
-  /\ UNCHANGED <<meta, mem, alog, unsure, nc, nops, crashes>>
+  /\ UNCHANGED <<meta, mem, alog, unsure, nc, nops, crashes, faults>>
 
 (* fix F1: a recovered tail that is sealed on disk is rotated now (metadata commit, then create) *)
 SealedTailSegs(segs, last) == [segs EXCEPT ![Len(segs)].sealed = TRUE, ![Len(segs)].max = last]
@@ -139,7 +144,7 @@ OpenRotate ==
           IN /\ meta' = [next |-> mem.next + 1, segs |-> ns]
              /\ mem' = [mem EXCEPT !.segs = ns, !.next = mem.next + 1]
              /\ pc' = <<"open", "initcreate">>
-  /\ UNCHANGED <<vdir, ddir, fvol, fdur, alog, unsure, nc, nops, crashes, created>>
+  /\ UNCHANGED <<vdir, ddir, fvol, fdur, alog, unsure, nc, nops, crashes, faults, created>>
 
 OpenSweep ==     \* delete unlisted files one by one (unlink + dir fsync), then the WAL is up
   /\ pc = <<"open", "sweep">>
@@ -152,7 +157,7 @@ OpenSweep ==     \* delete unlisted files one by one (unlink + dir fsync), then 
           /\ unsure' = unsure \cap {FirstOfView(mem.segs, fvol)}
           /\ alog' = FirstOfView(mem.segs, fvol)
   /\ IF Sweep /\ (vdir \ Ids(mem.segs)) # {} THEN UNCHANGED alog ELSE TRUE
-  /\ UNCHANGED <<meta, fvol, fdur, nc, nops, crashes, created>>
+  /\ UNCHANGED <<meta, fvol, fdur, nc, nops, crashes, faults, created>>
 
 ----------------------------------------------------------------------------
 (* StoreLogs: one entry per call; write, fsync (+ directory on first sync), acknowledge *)
@@ -167,7 +172,7 @@ StoreWrite ==
   /\ nc' = nc + 1 /\ nops' = nops + 1
   /\ pc' = <<"store", "sync">>
   /\ unsure' = unsure \cup {ApplyStore(alog, <<IF IsEmpty(alog) THEN TailOf(mem.segs).base + Len(fvol[TailOf(mem.segs).id].ents) ELSE Last(alog) + 1>>, <<nc>>)}
-  /\ UNCHANGED <<meta, vdir, ddir, fdur, mem, alog, crashes, created>>
+  /\ UNCHANGED <<meta, vdir, ddir, fdur, mem, alog, crashes, faults, created>>
 
 StoreSync ==
   /\ pc = <<"store", "sync">>
@@ -178,7 +183,7 @@ StoreSync ==
      /\ mem' = [mem EXCEPT !.rot = fvol[t.id].sealed]
   /\ unsure' = {alog'}
   /\ pc' = <<"idle">>
-  /\ UNCHANGED <<meta, vdir, fvol, nc, nops, crashes, created>>
+  /\ UNCHANGED <<meta, vdir, fvol, nc, nops, crashes, faults, created>>
 
 (* background rotation: metadata commit, then create (or the other way round: seeded change S02) *)
 RotateFirst ==
@@ -191,7 +196,7 @@ RotateFirst ==
              ELSE pc' = <<"failed">> /\ UNCHANGED <<meta, vdir, ddir, fvol, fdur, mem, created>>
         ELSE /\ meta' = [next |-> mem.next + 1, segs |-> ns] /\ pc' = <<"rotate", "create">>
              /\ UNCHANGED <<vdir, ddir, fvol, fdur, mem, created>>
-  /\ UNCHANGED <<alog, unsure, nc, nops, crashes>>
+  /\ UNCHANGED <<alog, unsure, nc, nops, crashes, faults>>
 
 RotateSecond ==
   /\ pc[1] = "rotate"
@@ -204,7 +209,7 @@ RotateSecond ==
            ELSE /\ meta' = [next |-> mem.next + 1, segs |-> ns] /\ UNCHANGED <<vdir, ddir, fvol, fdur, created>>
         /\ mem' = [mem EXCEPT !.segs = ns, !.next = mem.next + 1, !.rot = FALSE]
   /\ pc' = <<"idle">>
-  /\ UNCHANGED <<alog, unsure, nc, nops, crashes>>
+  /\ UNCHANGED <<alog, unsure, nc, nops, crashes, faults>>
 
 (* Empty-log base-index reset (resetEmptyFirstSegmentBaseIndex): the first append of an empty log *)
 (* at an index other than the tail's BaseIndex replaces the empty tail by one with the right     *)
@@ -219,7 +224,7 @@ ResetCommit ==
      IN /\ meta' = [next |-> mem.next + 1, segs |-> ns]
         /\ pc' = <<"del", "create", ns, {t.id}, alog>>        \* same post-commit steps as a truncation: create, publish, unlink
   /\ nops' = nops + 1
-  /\ UNCHANGED <<vdir, ddir, fvol, fdur, mem, alog, unsure, nc, crashes, created>>
+  /\ UNCHANGED <<vdir, ddir, fvol, fdur, mem, alog, unsure, nc, crashes, faults, created>>
 
 ----------------------------------------------------------------------------
 (* DeleteRange: head truncation DeleteRange(first, newMin-1), tail truncation DeleteRange(newMax+1, last) *)
@@ -242,7 +247,7 @@ DelHeadCommit(newMin) ==
                  ELSE <<"del", "unlink", ns, Ids(mem.segs) \ Ids(ns), ApplyDel(alog, First(alog), newMin - 1)>>
         /\ unsure' = {alog, ApplyDel(alog, First(alog), newMin - 1)}
   /\ nops' = nops + 1
-  /\ UNCHANGED <<vdir, ddir, fvol, fdur, mem, alog, nc, crashes, created>>
+  /\ UNCHANGED <<vdir, ddir, fvol, fdur, mem, alog, nc, crashes, faults, created>>
 
 DelTailSeal(newMax) ==        \* newMax inside the (non-empty) tail: force seal = write + fsync of index
   /\ Idle /\ Room /\ ~mem.rot /\ ~IsEmpty(alog)
@@ -255,7 +260,7 @@ DelTailSeal(newMax) ==        \* newMax inside the (non-empty) tail: force seal 
   /\ pc' = <<"deltail", "commit", newMax>>
   /\ nops' = nops + 1
   /\ unsure' = {alog, ApplyDel(alog, newMax + 1, Last(alog))}
-  /\ UNCHANGED <<meta, vdir, mem, alog, nc, crashes, created>>
+  /\ UNCHANGED <<meta, vdir, mem, alog, nc, crashes, faults, created>>
 
 DelTailDirect(newMax) ==      \* newMax below the tail's base: whole tail (and maybe more) goes
   /\ Idle /\ Room /\ ~mem.rot /\ ~IsEmpty(alog)
@@ -264,7 +269,7 @@ DelTailDirect(newMax) ==      \* newMax below the tail's base: whole tail (and m
   /\ pc' = <<"deltail", "commit", newMax>>
   /\ nops' = nops + 1
   /\ unsure' = {alog, ApplyDel(alog, newMax + 1, Last(alog))}
-  /\ UNCHANGED <<meta, vdir, ddir, fvol, fdur, mem, alog, nc, crashes, created>>
+  /\ UNCHANGED <<meta, vdir, ddir, fvol, fdur, mem, alog, nc, crashes, faults, created>>
 
 DelTailCommit ==
   /\ pc[1] = "deltail" /\ pc[2] = "commit"
@@ -274,7 +279,7 @@ DelTailCommit ==
          ns == NewTailSegs(keep, mem.next, newMax + 1)
      IN /\ meta' = [next |-> mem.next + 1, segs |-> ns]
         /\ pc' = <<"del", "create", ns, Ids(mem.segs) \ Ids(ns), ApplyDel(alog, newMax + 1, Last(alog))>>
-  /\ UNCHANGED <<vdir, ddir, fvol, fdur, mem, alog, unsure, nc, nops, crashes, created>>
+  /\ UNCHANGED <<vdir, ddir, fvol, fdur, mem, alog, unsure, nc, nops, crashes, faults, created>>
 
 DelCreate ==                   \* postCommit: create the new tail, then publish the state
   /\ pc[1] = "del" /\ pc[2] = "create"
@@ -282,7 +287,7 @@ DelCreate ==                   \* postCommit: create the new tail, then publish 
      IF CreateOK(t.id)
      THEN /\ DoCreate(t.id, t.base) /\ pc' = <<"del", "unlink", ns, pc[4], pc[5]>>
      ELSE /\ pc' = <<"failed">> /\ UNCHANGED <<vdir, ddir, fvol, fdur, created>>
-  /\ UNCHANGED <<meta, mem, alog, unsure, nc, nops, crashes>>
+  /\ UNCHANGED <<meta, mem, alog, unsure, nc, nops, crashes, faults>>
 
 DelUnlink ==                   \* publish, then finalizer: unlink + dir fsync per removed file
   /\ pc[1] = "del" /\ pc[2] = "unlink"
@@ -296,7 +301,7 @@ DelUnlink ==                   \* publish, then finalizer: unlink + dir fsync pe
           /\ alog' = pc[5]                \* the contract's result of the acknowledged DeleteRange
           /\ unsure' = {pc[5]}
           /\ pc' = <<"idle">> /\ UNCHANGED <<vdir, ddir>>
-  /\ UNCHANGED <<meta, fvol, fdur, nc, nops, crashes, created>>
+  /\ UNCHANGED <<meta, fvol, fdur, nc, nops, crashes, faults, created>>
 
 ----------------------------------------------------------------------------
 (* Power loss *)
@@ -310,7 +315,32 @@ Crash ==
   /\ ddir' = vdir'
   /\ mem' = [up |-> FALSE, segs |-> <<>>, next |-> 0, rot |-> FALSE]
   /\ pc' = <<"down">> /\ crashes' = crashes + 1
-  /\ UNCHANGED <<meta, alog, unsure, nc, nops, created>>
+  /\ UNCHANGED <<meta, alog, unsure, nc, nops, created, faults>>
+
+----------------------------------------------------------------------------
+(* C10 at design level: the file creation of a postCommit fails (ENOSPC, EIO, ...).  The metadata  *)
+(* already names the new tail; mutateStateLocked keeps using the old state.  Repaired design (fix   *)
+(* F15, Recommit): the kept state is committed again, with the advanced next id (a file with the    *)
+(* abandoned id may exist); pinned design: nothing - disk is ahead of memory, and what is appended  *)
+(* and acknowledged from now on lives in a file the metadata no longer lists.                        *)
+DelCreateFails ==
+  /\ pc[1] = "del" /\ pc[2] = "create" /\ faults < MaxFaults
+  /\ faults' = faults + 1
+  /\ IF Recommit THEN /\ meta' = [next |-> meta.next, segs |-> mem.segs]
+                      /\ mem' = [mem EXCEPT !.next = meta.next]
+                 ELSE UNCHANGED <<meta, mem>>
+  /\ unsure' = {alog, pc[5]}           \* the call returns an error: applied or not, both are acceptable
+  /\ pc' = <<"idle">>
+  /\ UNCHANGED <<vdir, ddir, fvol, fdur, alog, nc, nops, crashes, created>>
+
+RotateCreateFails ==
+  /\ pc = <<"rotate", "create">> /\ faults < MaxFaults
+  /\ faults' = faults + 1
+  /\ IF Recommit THEN /\ meta' = [next |-> meta.next, segs |-> mem.segs]
+                      /\ mem' = [mem EXCEPT !.next = meta.next, !.rot = FALSE]
+                 ELSE /\ mem' = [mem EXCEPT !.rot = FALSE] /\ UNCHANGED meta
+  /\ pc' = <<"idle">>                  \* the error is logged; the tail stays sealed: appends are refused until a reopen
+  /\ UNCHANGED <<vdir, ddir, fvol, fdur, alog, unsure, nc, nops, crashes, created>>
 
 Next ==
   \/ OpenLoad \/ OpenSegments \/ OpenInitCommit \/ OpenInitCreate \/ OpenRotate \/ OpenSweep
@@ -318,6 +348,7 @@ Next ==
   \/ \E i \in 1..(MaxIdx + 1) : DelHeadCommit(i)
   \/ \E i \in 0..MaxIdx : DelTailSeal(i) \/ DelTailDirect(i)
   \/ DelTailCommit \/ DelCreate \/ DelUnlink
+  \/ DelCreateFails \/ RotateCreateFails
   \/ Crash
 
 Spec == Init /\ [][Next]_vars
@@ -327,7 +358,8 @@ Spec == Init /\ [][Next]_vars
 (* C03: Open succeeds on every directory state a crash can leave behind *)
 C03_OpenSucceeds == pc # <<"failed">>
 (* C03: after recovery the WAL accepts appends (the tail is never left sealed with no rotation pending) *)
-C03_Writable == Idle => (mem.rot \/ ~fvol[TailOf(mem.segs).id].sealed)
+\* (after an injected I/O failure the WAL may refuse writes until it is reopened: C10 allows that)
+C03_Writable == (Idle /\ faults = 0) => (mem.rot \/ ~fvol[TailOf(mem.segs).id].sealed)
 
 (* C01/C02/C04: whenever the WAL is up and idle, what it shows is one of the logs the contract allows *)
 C01_ViewAllowed == Idle => View \in unsure
